@@ -181,6 +181,14 @@ theorem pipeline_record_clauses {κ} (t0 t : RawTree) (cfg : Config) (vote : Ora
       exact ⟨hg.direct, hg.inferred rfl⟩
   · exact (cellResult_levels rt hv id c o hc).2.2
 
+/-- a flattened run of the example taxonomy: levels 0 and 1 are inferred, they
+repeat the numbers of the leaf level and have no runner-up fields -/
+example : ((mapPipeline exTree { flatten := true } (exVoteP 2) [7] [1] [0]).toOption.getD []).flatMap
+    (fun r => r.levels.map
+      (fun le => ((le.1 : Nat), (le.2.assignment : Nat), le.2.prob, le.2.ru.isSome, le.2.direct))) =
+    [(2, 31, 1 / 2, true, some true), (1, 21, 1 / 2, false, some false),
+      (0, 10, 1 / 2, false, some false)] := by decide +kernel
+
 /-- **every record of the pipeline output is group C's model applied to the
 votes along the cell's walk.**  For each record `o` of a successful run there
 are the cell's raw per-level votes `raw` (one per level of the run's tree: the
@@ -283,13 +291,5 @@ theorem aggregate_running_product (es : List (Level × Entry))
 example : (LevelLoop.finishCell [(0, ⟨1, 1 / 2, some (1 / 3), some ([], [], []), none, none⟩),
     (1, ⟨2, 1 / 2, none, some ([], [], []), none, none⟩)]).map (fun le => le.2.agg) =
     [some (1 / 2), some (1 / 4)] := by decide +kernel
-
-/-- a flattened run of the example taxonomy: levels 0 and 1 are inferred, they
-repeat the numbers of the leaf level and have no runner-up fields -/
-example : ((mapPipeline exTree { flatten := true } (exVoteP 2) [7] [1] [0]).toOption.getD []).flatMap
-    (fun r => r.levels.map
-      (fun le => ((le.1 : Nat), (le.2.assignment : Nat), le.2.prob, le.2.ru.isSome, le.2.direct))) =
-    [(2, 31, 1 / 2, true, some true), (1, 21, 1 / 2, false, some false),
-      (0, 10, 1 / 2, false, some false)] := by decide +kernel
 
 end CTM.C03
